@@ -28,12 +28,15 @@ RULE = ("argument records for Client()/will_set()/username_pw_set()/connect(), p
         "strings of 65535/65536 bytes in every string position, keepalive 0/1/65535/65536, random subsets of the "
         "properties legal for each packet type packed by the real Properties.pack(), SubscribeOptions with all flag "
         "combinations, subscribe/unsubscribe in every call form, v5 disconnect with/without reason code/properties; "
+        "DEFERRED PUBLISH paths (released from the in-flight window of size 1/2 by an acknowledgement, retransmitted after reconnect+CONNACK, "
+        "published offline and sent at CONNACK, queued while the socket blocks): every PUBLISH on every connection is decoded and compared with the "
+        "arguments of the publish() call it belongs to (DUP: 0 on a first transmission) and with encode_publish of those arguments; "
         "the repaired families as regressions (256 MB publish, unsubscribe([]), wildcard will topic must raise with nothing written); "
         "clean-flag histories: exhaustive sequences of connect/connect_async/reconnect/CONNACK ok/CONNACK refused/loss "
         "up to a bound plus random longer ones. distinct = (kind, version, remaining-length class, payload type, qos, "
         "flags, property use, outcome); non-trivial = a packet was emitted and decoded, or an unrepresentable input was rejected")
 EXTRACT_TAGS = ["packets"]
-GENERATED_ITEMS = ["_pack_remaining_length", "_send_publish flag byte", "_send_connect flags"]
+GENERATED_ITEMS = ["_pack_remaining_length", "_send_publish flag byte", "_send_connect flags", "_send_publish call sites"]
 ASSUMPTIONS = [
     "str.encode('utf-8') yields well-formed UTF-8 and str(int)/str(float) the decimal text (checked here on the implementation side: decoded text is compared with an independent encoding / numeric value)",
     "an MQTT 5 property block is opaque in this model (Properties.pack() is modelled by C17); the decoder only checks its presence and that its length prefix delimits it",
@@ -1515,6 +1518,228 @@ def run_observations(ctx, out):
                      f"connect flags 0x{w[9]:02x}")
 
 
+# ------------------------------------------------------------------------------------------ deferred emission paths
+# A PUBLISH is not always written by publish() itself: it may be (1) released from the in-flight window by
+# _update_inflight after an acknowledgement, (2) retransmitted by the CONNACK loop after a reconnect, (3) stored while
+# offline and sent at CONNACK, (4) queued in _out_packet while the socket blocks.  Whatever path writes it, it has to
+# decode to exactly the arguments given to publish() (DUP excepted: 0 on the first transmission, 1 only on a repeat).
+def pub_mid_of(first, body):
+    tl = int.from_bytes(body[:2], "big")
+    return int.from_bytes(body[2 + tl:4 + tl], "big") if (first >> 1) & 3 else 0
+
+
+def pump(c, answered, drop=()):
+    """play a conforming broker on the current socket: acknowledge every PUBLISH / PUBREL seen, once"""
+    for _ in range(400):
+        if not c.socks or c._sock is None:
+            return
+        s = c.socks[-1]
+        for _ in range(50):
+            if not c._out_packet:
+                break
+            c.loop_write()
+        pk, _ = impl.split_packets(bytes(s.wire))
+        progress = False
+        for first, body in pk:
+            t = first >> 4
+            if t == 3 and (first >> 1) & 3:
+                mid = pub_mid_of(first, body)
+                key = (s.id, "pub", mid)
+                if key in answered or mid in drop:
+                    continue
+                answered.add(key)
+                s.feed(impl.ack("puback" if (first >> 1) & 3 == 1 else "pubrec", mid))
+                c.loop_read()
+                progress = True
+            elif t == 6:
+                mid = int.from_bytes(body[:2], "big")
+                key = (s.id, "rel", mid)
+                if key in answered or mid in drop:
+                    continue
+                answered.add(key)
+                s.feed(impl.ack("pubcomp", mid))
+                c.loop_read()
+                progress = True
+        if not progress and not c._out_packet:
+            return
+
+
+def impl_deferred(a):
+    """runs the scenario; returns (records of the publish() calls, list of (socket index, first byte, body) PUBLISH packets,
+    whole wires)"""
+    v, path, w = a["proto"], a["path"], a.get("window", 20)
+    recs = []
+
+    def do_publish(c, m):
+        props = mk_props(PacketTypes.PUBLISH, m.get("props")) if v == 5 else None
+        kw = {"properties": props} if v == 5 else {}
+        info = c.publish(m["topic"], mk_payload(m["payload"]), m["qos"], m["retain"], **kw)
+        recs.append({"m": m, "mid": info.mid, "rc": int(info.rc), "packed": packed_of(props)})
+
+    answered = set()
+    if path == "offline":
+        c = impl.make_client(protocol=PROTO[v], clean=a.get("clean", True), client_id="cid")
+        c.max_inflight_messages_set(w)
+        c._last_mid = a["start_mid"]
+        for m in a["msgs"]:
+            do_publish(c, m)
+        c.connect("h")
+        c.socks[-1].feed(impl.connack(v5=(v == 5)))
+        c.loop_read()
+        pump(c, answered)
+    else:
+        c = impl.make_client(protocol=PROTO[v], clean=a.get("clean", True), client_id="cid")
+        c.max_inflight_messages_set(w)
+        c.connect("h")
+        s = c.socks[-1]
+        s.feed(impl.connack(v5=(v == 5)))
+        c.loop_read()
+        c._last_mid = a["start_mid"]
+        if path == "blocked":
+            s.send_plan.extend(a["send_plan"])
+        for m in a["msgs"]:
+            do_publish(c, m)
+        if path == "window" or path == "blocked":
+            pump(c, answered)
+        elif path == "reconnect":
+            # acknowledge part of the traffic, then lose the connection; the rest is retransmitted after CONNACK
+            k = a.get("acked_before_loss", 0)
+            sent = [r["mid"] for r in recs if r["m"]["qos"] > 0]
+            pump(c, answered, drop=set(sent[k:]))
+            if a.get("half_qos2"):
+                # bring the first unacknowledged QoS 2 message to the PUBREL stage, then drop the PUBCOMP
+                for r in recs:
+                    if r["m"]["qos"] == 2 and r["mid"] in sent[k:]:
+                        s.feed(impl.ack("pubrec", r["mid"]))
+                        c.loop_read()
+                        break
+            s.eof = True
+            c.loop_read()
+            for _ in range(a.get("reconnects", 1)):
+                c.reconnect()
+            c.socks[-1].feed(impl.connack(flags=0 if a.get("clean", True) else 1, v5=(v == 5)))
+            c.loop_read()
+            pump(c, answered)
+    pubs = []
+    wires = []
+    for i, s in enumerate(c.socks):
+        wires.append(bytes(s.wire))
+        pk, left = impl.split_packets(bytes(s.wire))
+        for first, body in pk:
+            if first >> 4 == 3:
+                pubs.append((i, first, bytes(body)))
+    return recs, pubs, wires
+
+
+def check_deferred(a, out):
+    """oracle + correspondence for one deferred-emission scenario; appends to out.violations / out.disagreements"""
+    v = a["proto"]
+    recs, pubs, wires = impl_deferred(a)
+    case = dict(a)
+    # every wire must be a sequence of well-formed packets
+    for w in wires:
+        o = model.run_one(TAG, E_STREAM, [v] + list(w)) if w else [1]
+        if not o or o[0] != 1:
+            out.violations.append({"case": case, "what": f"bytes written on a connection are not a sequence of well-formed packets: {w[:40].hex()}...",
+                                   "signature": "deferred-malformed-stream"})
+            return
+    if not pubs:
+        return
+    decs = model.run_batch(TAG, E_DECODE, [[v] + list(impl.pkt(first, body)) for _, first, body in pubs])
+    by_mid = {r["mid"]: r for r in recs if r["m"]["qos"] > 0}
+    q0 = [r for r in recs if r["m"]["qos"] == 0 and r["rc"] != int(mqtt.MQTT_ERR_NO_CONN)]
+    q0i = 0
+    seen_mid = set()
+    margs, mwire = [], []
+    for (si, first, body), o in zip(pubs, decs):
+        d = parse_flat(o)
+        raw = impl.pkt(first, body)
+        if d is None or d["type"] != 3:
+            out.violations.append({"case": case, "what": f"a PUBLISH written on a deferred path is malformed: {raw[:40].hex()}",
+                                   "signature": "deferred-malformed-publish"})
+            continue
+        if d["qos"] == 0:
+            r = q0[q0i] if q0i < len(q0) else None
+            q0i += 1
+        else:
+            r = by_mid.get(d["mid"])
+        if r is None:
+            out.violations.append({"case": case, "what": f"a PUBLISH on the wire corresponds to no publish() call: {brief(d)}",
+                                   "signature": "deferred-unexpected-publish"})
+            continue
+        m = r["m"]
+        exp = dict(qos=m["qos"], retain=int(bool(m["retain"])), topic=enc(m["topic"]), mid=(r["mid"] if m["qos"] else 0),
+                   props=content_of(r["packed"] if v == 5 else None))
+        bad = [k for k, val in exp.items() if d.get(k) != val]
+        if not payload_matches(m["payload"], d["payload"]):
+            bad.append("payload")
+        repeat = m["qos"] > 0 and d["mid"] in seen_mid
+        if d["dup"] and not repeat:
+            bad.append("dup(set on a first transmission)")
+        if m["qos"] > 0:
+            seen_mid.add(d["mid"])
+        out.stat("deferred_publish_decoded")
+        out.stat("deferred_dup_%d_repeat_%d" % (d["dup"], int(repeat)))
+        if bad:
+            out.violations.append({"case": case, "what": f"PUBLISH written on the '{a['path']}' path (connection {si}) differs from the arguments of publish() "
+                                   f"in {bad}: supplied {brief({'topic': enc(m['topic']), 'qos': m['qos'], 'retain': m['retain'], 'props': exp['props'], 'mid': exp['mid']})}, "
+                                   f"on the wire {brief(d)}", "publish_args": m, "signature": "deferred-value-mismatch-" + bad[0].split("(")[0]})
+        # correspondence: the bytes are encode_publish of the stored arguments with the observed DUP
+        pk = r["packed"] if v == 5 else None
+        margs.append([v, d["dup"], m["qos"], int(bool(m["retain"])), r["mid"] if m["qos"] else 0] + lp(enc(m["topic"]))
+                     + lp(payload_model_bytes(m["payload"])) + lp(pk if pk is not None else b"\x00"))
+        mwire.append(raw)
+    for args, raw, mo in zip(margs, mwire, model.run_batch(TAG, E_PUBLISH, margs)):
+        out.validated += 1
+        if res_of(mo) != ("ok", raw):
+            out.disagreements.append({"case": case, "what": "deferred PUBLISH differs from encode_publish of the arguments given to publish()",
+                                      "impl": raw[:60].hex(), "model": (bytes(mo[1:61]).hex() if mo and mo[0] == 0 else mo)})
+    # every accepted QoS>0 message must have been written at least once by the end of the scenario (all acks were supplied)
+    missing = [r["mid"] for r in recs if r["m"]["qos"] > 0 and r["rc"] in (0, int(mqtt.MQTT_ERR_NO_CONN)) and r["mid"] not in seen_mid]
+    if missing:
+        out.notes.append(f"deferred scenario {a['path']} v{v}: messages never written: {missing} (C01's matter)")
+
+
+def gen_deferred_cases(ctx, rng):
+    cases = []
+
+    def msg(v, qos=None):
+        sp = gen_payload(rng)
+        if sp["t"] == "pat":
+            sp = {"t": "none"}
+        return dict(topic=gen_topic(rng), payload=sp, qos=rng.choice((1, 2)) if qos is None else qos, retain=rng.random() < 0.5,
+                    props=(gen_props(rng, PacketTypes.PUBLISH) or [["UserProperty", {"p": ["k", gen_word(rng)]}]]) if v == 5 and rng.random() < 0.8 else None)
+    for v in (3, 4, 5):
+        for w in (1, 2):
+            for _ in range(ctx.n(6, 60)):
+                n = rng.randint(w + 1, w + 4)
+                cases.append(dict(kind="deferred", path="window", proto=v, window=w, start_mid=rng.choice([0, 65533, rng.randrange(60000)]),
+                                  msgs=[msg(v, rng.choice((0, 1, 1, 2, 2))) for _ in range(n)]))
+                cases.append(dict(kind="deferred", path="offline", proto=v, window=w, start_mid=rng.choice([0, 65533, rng.randrange(60000)]),
+                                  clean=True if v == 5 else rng.random() < 0.5, msgs=[msg(v, rng.choice((0, 1, 2, 2))) for _ in range(n)]))
+        for _ in range(ctx.n(8, 100)):
+            n = rng.randint(1, 5)
+            cases.append(dict(kind="deferred", path="reconnect", proto=v, window=rng.choice([1, 2, 20, 20]), start_mid=rng.randrange(60000),
+                              clean=True if v == 5 else rng.random() < 0.5, acked_before_loss=rng.randint(0, n), half_qos2=rng.random() < 0.5,
+                              reconnects=rng.choice([1, 1, 2]), msgs=[msg(v) for _ in range(n)]))
+            cases.append(dict(kind="deferred", path="blocked", proto=v, window=20, start_mid=rng.randrange(60000),
+                              send_plan=[rng.choice([0, 0, 1, 2, 3, 7, 50]) for _ in range(rng.randint(1, 12))],
+                              msgs=[msg(v, rng.choice((0, 0, 0, 1, 2))) for _ in range(rng.randint(1, 6))]))
+    return cases
+
+
+def run_deferred(ctx, out):
+    for a in gen_deferred_cases(ctx, ctx.rng):
+        out.cases += 1
+        out.stat("deferred_" + a["path"])
+        nv = len(out.violations)
+        check_deferred(a, out)
+        out.seen(("deferred", a["path"], a["proto"], a.get("window"), a.get("clean"), len(a["msgs"]),
+                  tuple((m["qos"], m["retain"], m["payload"]["t"], m["props"] is not None) for m in a["msgs"])))
+        if len(out.violations) == nv and len(out.samples) < 6 and a["path"] == "window" and a["proto"] == 5:
+            out.sample({"deferred_case": {k: a[k] for k in ("path", "proto", "window")}, "messages": len(a["msgs"])})
+
+
 # ------------------------------------------------------------------------------------------ entry points
 def run_corpus(ctx, out):
     """stored witnesses first (the cheap ones; the 256 MB ones are run_overflow's)"""
@@ -1541,6 +1766,7 @@ def run(ctx, out):
     for i in range(0, len(cases), 400):
         run_api_cases(cases[i:i + 400], out)
     run_ack_stream(ctx, out)
+    run_deferred(ctx, out)
     run_clean(ctx, out)
     run_overflow(ctx, out)
     run_observations(ctx, out)
@@ -1563,6 +1789,15 @@ def replay(payload):
         o.sample = lambda *a, **kw: None
         run_api_cases([case], o)
         return (not o.violations and not o.disagreements), {"violations": o.violations, "disagreements": o.disagreements}
+    if k == "deferred":
+        class O2:
+            pass
+        o = O2()
+        o.cases = o.validated = 0
+        o.violations, o.disagreements, o.samples, o.notes, o.stats = [], [], [], [], {}
+        o.stat = lambda *a, **kw: None
+        check_deferred(case, o)
+        return (not o.violations and not o.disagreements), {"violations": o.violations, "disagreements": o.disagreements, "notes": o.notes}
     if k == "overflow_publish":
         d = overflow_publish(case.get("proto", 4))
         v = overflow_violation(d, case)
